@@ -104,4 +104,274 @@ theorem crChunk_raw : ∀ (l : List Pt) (s : CR), 0 < s.total →
     rw [hcr]
     exact ⟨by simp only [h1, adjScan, s'], h2⟩
 
+/-! ### algebra of `adjusted` -/
+
+/-- the increase the reader (and the aggregator) books for value `y` after value `l` -/
+def delta (l y : Int) : Int := if y < l then y else y - l
+
+theorem foldl_adjStep_shift (k : Int) : ∀ (ys : List Int) (a l : Int),
+    ys.foldl adjStep (a + k, l) = ((ys.foldl adjStep (a, l)).1 + k, (ys.foldl adjStep (a, l)).2)
+  | [], a, l => rfl
+  | y :: ys, a, l => by
+    simp only [List.foldl_cons, adjStep]
+    have : (if y < l then a + k + y else a + k + (y - l)) = (if y < l then a + y else a + (y - l)) + k := by
+      split <;> omega
+    rw [this]
+    exact foldl_adjStep_shift k ys _ y
+
+theorem foldl_adjStep_snd : ∀ (ys : List Int) (a l : Int),
+    (ys.foldl adjStep (a, l)).2 = (match ys.getLast? with | some y => y | none => l)
+  | [], a, l => rfl
+  | [y], a, l => by simp [adjStep]
+  | y :: z :: ys, a, l => by
+    rw [List.foldl_cons, List.getLast?_cons_cons]
+    simp only [adjStep]
+    rw [foldl_adjStep_snd (z :: ys)]
+    cases h : (z :: ys).getLast? with
+    | none => simp at h
+    | some w => rfl
+
+/-- last value of a non-empty value list (0 for the empty list, never used there) -/
+def lastVal (xs : List Int) : Int := match xs.getLast? with | some y => y | none => 0
+
+/-- **appending to a counter**: the adjusted value after `xs ++ y :: ys` is the adjusted value
+    after `xs`, plus the step from the last value of `xs` to `y`, plus what `y :: ys` gains on
+    its own -/
+theorem adjusted_append (x : Int) (xs : List Int) (y : Int) (ys : List Int) :
+    adjusted ((x :: xs) ++ y :: ys) = adjusted (x :: xs) + delta (lastVal (x :: xs)) y + (adjusted (y :: ys) - y) := by
+  simp only [adjusted, List.cons_append, List.foldl_append, List.foldl_cons]
+  have hstate : xs.foldl adjStep (x, x) = ((xs.foldl adjStep (x, x)).1, lastVal (x :: xs)) := by
+    have := foldl_adjStep_snd xs x x
+    ext
+    · rfl
+    · rw [this]
+      simp only [lastVal]
+      cases xs with
+      | nil => rfl
+      | cons z zs =>
+        rw [List.getLast?_cons_cons]
+        cases h : (z :: zs).getLast? with
+        | none => simp at h
+        | some w => rfl
+  rw [hstate]
+  simp only [adjStep]
+  have := foldl_adjStep_shift ((if y < lastVal (x :: xs) then (xs.foldl adjStep (x, x)).1 + y
+      else (xs.foldl adjStep (x, x)).1 + (y - lastVal (x :: xs))) - y) ys y y
+  have he : y + ((if y < lastVal (x :: xs) then (xs.foldl adjStep (x, x)).1 + y
+      else (xs.foldl adjStep (x, x)).1 + (y - lastVal (x :: xs))) - y) =
+      (if y < lastVal (x :: xs) then (xs.foldl adjStep (x, x)).1 + y
+      else (xs.foldl adjStep (x, x)).1 + (y - lastVal (x :: xs))) := by omega
+  rw [he] at this
+  rw [this]
+  simp only [delta]
+  split <;> omega
+
+theorem adjusted_singleton (y : Int) : adjusted [y] = y := rfl
+
+/-- for non-negative values the adjusted counter never decreases along a prefix chain -/
+theorem adjusted_mono_append (x : Int) (xs : List Int) (ys : List Int) (h0 : ∀ v ∈ (x :: xs) ++ ys, 0 ≤ v) :
+    adjusted (x :: xs) ≤ adjusted ((x :: xs) ++ ys) := by
+  induction ys generalizing x xs with
+  | nil => simp
+  | cons y ys ih =>
+    have : (x :: xs) ++ y :: ys = (x :: (xs ++ [y])) ++ ys := by simp
+    rw [this]
+    have h1 := ih x (xs ++ [y]) (by rw [← this]; exact h0)
+    have h2 : adjusted (x :: xs) ≤ adjusted (x :: (xs ++ [y])) := by
+      have := adjusted_append x xs y []
+      simp only [List.cons_append] at this
+      rw [this, adjusted_singleton]
+      have hy : 0 ≤ y := h0 y (by simp)
+      have hl : 0 ≤ lastVal (x :: xs) := by
+        simp only [lastVal]
+        cases hg : (x :: xs).getLast? with
+        | none => simp at hg
+        | some w => exact h0 w (List.mem_append_left _ (List.mem_of_getLast? hg))
+      simp only [delta]
+      split <;> omega
+    omega
+
+theorem getLast?_append_ne' {α : Type} (l1 l2 : List α) (h : l2 ≠ []) : (l1 ++ l2).getLast? = l2.getLast? := by
+  rw [List.getLast?_append]
+  cases h' : l2.getLast? with
+  | none => simp at h'; exact absurd h' h
+  | some x => simp
+
+/-! ### the reader on a well-shaped counter chunk -/
+
+theorem crChunk_append : ∀ (l1 l2 : List Pt) (s : CR) (fr : List Int),
+    crChunk (l1 ++ l2) s fr =
+      ((crChunk l1 s fr).1 ++ (crChunk l2 (crChunk l1 s fr).2.1 (crChunk l1 s fr).2.2).1,
+       (crChunk l2 (crChunk l1 s fr).2.1 (crChunk l1 s fr).2.2).2.1,
+       (crChunk l2 (crChunk l1 s fr).2.1 (crChunk l1 s fr).2.2).2.2)
+  | [], l2, s, fr => by simp [crChunk]
+  | (t, v) :: l1, l2, s, fr => by
+    simp only [List.cons_append, crChunk]
+    split
+    · split
+      · simp only [crChunk_append l1 l2, List.cons_append]
+      · exact crChunk_append l1 l2 _ _
+    · exact crChunk_append l1 l2 _ _
+
+/-- the counter sub-chunk `(t0, v0) :: mid ++ [(lastT, lv)]`: first raw sample, aggregated
+    samples (`mid`), and the last timestamp once more with the last raw value -/
+structure CtrShape (t0 v0 : Int) (mid : List Pt) (lastT : Int) : Prop where
+  midne : mid ≠ []
+  ts : (mid.map (·.1)).Pairwise (· < ·)
+  first : ∀ p ∈ mid, t0 ≤ p.1
+  last : (mid.map (·.1)).getLast? = some lastT
+  vals : (mid.map (·.2)).Pairwise (· ≤ ·)
+  v0le : ∀ p ∈ mid, v0 ≤ p.2
+  headEq : ∀ p ∈ mid, p.1 = t0 → p.2 = v0
+
+/-- the running total right after the first sample of a chunk -/
+def enterV (s : CR) (v0 : Int) : Int :=
+  if s.total = 0 then v0 else s.totalV + (if v0 ≥ s.lastV then v0 - s.lastV else v0)
+
+theorem crChunk_shape (t0 v0 : Int) (mid : List Pt) (lastT lv : Int) (sh : CtrShape t0 v0 mid lastT)
+    (s : CR) (fr : List Int) (hs : s.total = 0 ∨ s.lastT < t0) (hfr : ∀ x ∈ fr, x ≤ t0) :
+    ∃ n, 0 < n ∧
+      crChunk ((t0, v0) :: mid ++ [(lastT, lv)]) s fr =
+        ((t0, enterV s v0) :: (mid.filter fun p => t0 < p.1).map (fun p => (p.1, enterV s v0 + (p.2 - v0))),
+         { total := n, lastT := lastT, lastV := lv, totalV := enterV s v0 + (lastVal (mid.map (·.2)) - v0) }, []) := by
+  -- 1. the first sample
+  let s1 : CR := { total := s.total + 1, lastT := t0, lastV := v0, totalV := enterV s v0 }
+  have hstep : s.step t0 v0 = (s1, true) := by
+    simp only [CR.step, enterV, s1]
+    by_cases h0 : s.total = 0
+    · simp [h0]
+    · have hlt : t0 > s.lastT := by rcases hs with h | h; exact absurd h h0; exact h
+      simp only [h0, if_false, hlt, if_true]
+      by_cases hv : v0 ≥ s.lastV <;> simp [hv]
+  have hpop : popFrames s1.lastT fr = [] := popFrames_of_le t0 fr hfr
+  have h1 : crChunk ((t0, v0) :: mid ++ [(lastT, lv)]) s fr =
+      ((t0, enterV s v0) :: (crChunk (mid ++ [(lastT, lv)]) s1 []).1,
+       (crChunk (mid ++ [(lastT, lv)]) s1 []).2.1, (crChunk (mid ++ [(lastT, lv)]) s1 []).2.2) := by
+    rw [List.cons_append, crChunk, hstep]
+    simp only [if_true, hpop]
+    rfl
+  -- 2. the aggregated samples strictly after t0
+  have hMsplit : ∃ pre, mid = pre ++ mid.filter (fun p => t0 < p.1) ∧ (pre = [] ∨ pre = [(t0, v0)]) := by
+    cases hm : mid with
+    | nil => exact absurd hm sh.midne
+    | cons m ms =>
+      have hts := sh.ts
+      rw [hm] at hts
+      simp only [List.map_cons, List.pairwise_cons] at hts
+      have hms : ∀ q ∈ ms, t0 < q.1 := by
+        intro q hq
+        have h1 := hts.1 q.1 (List.mem_map.mpr ⟨q, hq, rfl⟩)
+        have h2 := sh.first m (by rw [hm]; simp)
+        omega
+      have hfms : ms.filter (fun p => decide (t0 < p.1)) = ms :=
+        List.filter_eq_self.mpr (fun q hq => by simpa using hms q hq)
+      by_cases hm1 : t0 < m.1
+      · refine ⟨[], ?_, Or.inl rfl⟩
+        simp [List.filter_cons, hm1, hfms]
+      · have hme : m.1 = t0 := by have := sh.first m (by rw [hm]; simp); omega
+        have hmv : m.2 = v0 := sh.headEq m (by rw [hm]; simp) hme
+        refine ⟨[(t0, v0)], ?_, Or.inr rfl⟩
+        have : m = (t0, v0) := by ext <;> simp [hme, hmv]
+        simp [List.filter_cons, hm1, hfms, this]
+  obtain ⟨pre, hsplit, hpre⟩ := hMsplit
+  generalize hM : mid.filter (fun p => t0 < p.1) = M at *
+  have hMgt : ∀ p ∈ M, s1.lastT < p.1 := by
+    intro p hp
+    rw [← hM] at hp
+    simpa using (List.mem_filter.mp hp).2
+  have hMsub : ∀ p ∈ M, p ∈ mid := fun p hp => by rw [hsplit]; exact List.mem_append_right _ hp
+  have hMts : (M.map (·.1)).Pairwise (· < ·) := by
+    have := sh.ts; rw [hsplit, List.map_append] at this; exact (List.pairwise_append.mp this).2.1
+  have hMvals : (M.map (·.2)).Pairwise (· ≤ ·) := by
+    have := sh.vals; rw [hsplit, List.map_append] at this; exact (List.pairwise_append.mp this).2.1
+  have hMv0 : ∀ p ∈ M, s1.lastV ≤ p.2 := fun p hp => sh.v0le p (hMsub p hp)
+  -- the duplicate of (t0, v0), if present, changes nothing
+  have hpre_state : crChunk pre s1 [] = ([], s1, []) := by
+    rcases hpre with h | h
+    · rw [h]; rfl
+    · rw [h]
+      simp [crChunk, CR.step, s1]
+  obtain ⟨m1, m2, m3⟩ := crChunk_mono M s1 (by simp [s1]) hMts hMgt hMvals hMv0
+  -- 3. put together
+  have hrest : crChunk (mid ++ [(lastT, lv)]) s1 [] =
+      (M.map (fun p => (p.1, enterV s v0 + (p.2 - v0))),
+       { (crChunk M s1 []).2.1 with lastV := lv }, []) := by
+    have hassoc : mid ++ [(lastT, lv)] = pre ++ (M ++ [(lastT, lv)]) := by
+      rw [← List.append_assoc, ← hsplit]
+    rw [hassoc, crChunk_append, hpre_state]
+    simp only [List.nil_append]
+    rw [crChunk_append, m2]
+    -- the final duplicate timestamp
+    have hlastT : (crChunk M s1 []).2.1.lastT = lastT ∧ 0 < (crChunk M s1 []).2.1.total := by
+      rw [m3]
+      cases hgl : M.getLast? with
+      | none =>
+        have hMnil : M = [] := List.getLast?_eq_none_iff.mp hgl
+        simp only [s1]
+        -- then mid = [(t0, v0)] and lastT = t0
+        rw [hMnil, List.append_nil] at hsplit
+        rcases hpre with h | h
+        · rw [h] at hsplit; exact absurd hsplit sh.midne
+        · have := sh.last
+          rw [hsplit, h] at this
+          simp at this
+          have hs1t : s1.total = s.total + 1 := rfl
+          exact ⟨this, by omega⟩
+      | some l =>
+        simp only
+        have := sh.last
+        rw [hsplit, List.map_append, getLast?_append_ne' _ _ (by
+          intro hc
+          have := List.map_eq_nil_iff.mp hc
+          rw [this] at hgl; simp at hgl), List.getLast?_map, hgl] at this
+        simp at this
+        have hs1t : s1.total = s.total + 1 := rfl
+        exact ⟨this, by omega⟩
+    have hfin : crChunk [(lastT, lv)] (crChunk M s1 []).2.1 [] = ([], { (crChunk M s1 []).2.1 with lastV := lv }, []) := by
+      have hne : (crChunk M s1 []).2.1.total ≠ 0 := by omega
+      simp only [crChunk, CR.step, hne, if_false, hlastT.1]
+      simp
+    rw [hfin, m1]
+    simp [s1]
+  refine ⟨(crChunk M s1 []).2.1.total, ?_, ?_⟩
+  · rw [m3]
+    have hs1t : s1.total = s.total + 1 := rfl
+    cases M.getLast? with
+    | none => simp only; omega
+    | some l => simp only; omega
+  · rw [h1, hrest]
+    simp only
+    congr 1
+    congr 1
+    -- the final state
+    rw [m3]
+    cases hgl : M.getLast? with
+    | none =>
+      have hMnil : M = [] := List.getLast?_eq_none_iff.mp hgl
+      rw [hMnil, List.append_nil] at hsplit
+      rcases hpre with h | h
+      · rw [h] at hsplit; exact absurd hsplit sh.midne
+      · have hl := sh.last
+        rw [hsplit, h] at hl
+        simp at hl
+        simp only [s1, hsplit, h, lastVal]
+        simp [hl]
+    | some l =>
+      have hl := sh.last
+      have hne : M.map (·.1) ≠ [] := by
+        intro hc
+        have := List.map_eq_nil_iff.mp hc
+        rw [this] at hgl; simp at hgl
+      rw [hsplit, List.map_append, getLast?_append_ne' _ _ hne, List.getLast?_map, hgl] at hl
+      simp at hl
+      have hv : lastVal (mid.map (·.2)) = l.2 := by
+        have hne2 : M.map (·.2) ≠ [] := by
+          intro hc
+          have := List.map_eq_nil_iff.mp hc
+          rw [this] at hgl; simp at hgl
+        simp only [lastVal]
+        rw [hsplit, List.map_append, getLast?_append_ne' _ _ hne2, List.getLast?_map, hgl]
+        rfl
+      simp only [s1, hv, hl]
+
 end Thanos.Downsample
